@@ -6,7 +6,9 @@ import (
 	"fmt"
 	"math"
 	"os"
+	goruntime "runtime"
 	"strings"
+	"time"
 
 	rt "github.com/arnodel/golua/runtime"
 
@@ -338,7 +340,13 @@ func runCrash(ctx *core.RunCtx) {
 		} else {
 			ctx.Count("outcome.ran", 1)
 		}
-	case "lib":
+	case "lib", "lib-amp":
+		// lib-amp: the same grid with size arguments far beyond the memory limit; what comes back must
+		// fit under the limit (C06 M3) and come back promptly (C05 K6)
+		amp := mode == "lib-amp"
+		if amp {
+			lim = rt.RuntimeResources{Cpu: []uint64{100000, 1000000}[g.Choose(2)] + uint64(g.Choose(97)), Memory: []uint64{30000, 200000, 1000000}[g.Choose(3)] + uint64(g.Choose(997))}
+		}
 		os.Chdir(os.TempDir())
 		fns := collectGoFunctions(h)
 		sp := h.Run("sp", crashSpecials)
@@ -384,25 +392,75 @@ func runCrash(ctx *core.RunCtx) {
 			}
 			nargs = 0
 		}
+		argBytes := 0
 		for i := 0; i < nargs; i++ {
 			v, d := edgeValue(g, h, sp.Values)
+			if amp && g.Chance(1, 2) {
+				switch g.Choose(4) {
+				case 0, 1:
+					n := []int64{10000, 1000000, 100000000, 1 << 31, 1 << 40}[g.Choose(5)]
+					v, d = rt.IntValue(n), fmt.Sprint(n)
+				case 2:
+					n := []int{10000, 100000}[g.Choose(2)]
+					v, d = rt.StringValue(strings.Repeat([]string{"x", "ab", "%s", "a "}[g.Choose(4)], n)), fmt.Sprintf("string(%d units)", n)
+				default:
+					t := rt.NewTable()
+					for k := 1; k <= 2000; k++ {
+						t.Set(rt.IntValue(int64(k)), rt.StringValue("item"))
+					}
+					v, d = rt.TableValue(t), "table(2000 strings)"
+				}
+			}
 			args = append(args, v)
 			desc = append(desc, d)
+		}
+		for _, a := range args {
+			if sv, ok := a.TryString(); ok {
+				argBytes += len(sv)
+			}
 		}
 		where := fmt.Sprintf("%s(%s) under kill=%v", fn.path, strings.Join(desc, ", "), lim)
 		ctx.Sample = where
 		ctx.Shape = core.HashString(where)
 		ctx.Count("library calls", 1)
 		var pan interface{}
+		term := rt.NewTerminationWith(nil, 0, true)
+		var ms0, ms1 goruntime.MemStats
+		if amp {
+			goruntime.ReadMemStats(&ms0)
+			if ms0.HeapAlloc > 24<<20 {
+				goruntime.GC()
+				goruntime.ReadMemStats(&ms0)
+			}
+		}
+		start := procCPU()
 		func() {
 			defer func() { pan = recover() }()
 			h.R.MainThread().CallContext(rt.RuntimeContextDef{HardLimits: lim}, func() error {
-				return rt.Call(h.R.MainThread(), fn.v, args, rt.NewTerminationWith(nil, 0, true))
+				return rt.Call(h.R.MainThread(), fn.v, args, term)
 			})
 		}()
 		if pan != nil {
 			failP(fn.path, pan, where)
 			return
+		}
+		if amp {
+			wall := procCPU() - start
+			goruntime.ReadMemStats(&ms1)
+			for _, v := range term.Etc() {
+				if sv, ok := v.TryString(); ok && uint64(len(sv)) >= lim.Memory+uint64(argBytes) {
+					ctx.Fail("C06", "C06.M3", "value-exceeds-limit:"+fn.path, "the call returned a string of %d bytes under memory limit %d (string arguments: %d bytes); %s", len(sv), lim.Memory, argBytes, where)
+					return
+				}
+			}
+			if ms1.HeapSys > ms0.HeapSys && ms1.HeapSys-ms0.HeapSys > 16*lim.Memory+128<<20 {
+				ctx.Fail("C06", "C06.M3", "heap-growth:"+fn.path, "the Go heap grew by %d bytes under memory limit %d; %s", ms1.HeapSys-ms0.HeapSys, lim.Memory, where)
+				return
+			}
+			if wall > 10*time.Second {
+				ctx.Fail("C05", "C05.K6", "slow:"+fn.path, "the call took %v of processor time under cpu limit %d; %s", wall, lim.Cpu, where)
+				return
+			}
 		}
 	case "ramp":
 		r := ramps[g.Choose(len(ramps))]
